@@ -367,6 +367,23 @@ PAIR_QUERY = {"add_op": "PAdd", "torch_add": "PAdd", "sub_op": "PSub", "torch_su
               "torch_mul": "PMul", "matmul_op": "PMatmul", "torch_matmul": "PMatmul"}
 
 
+MODELLED_DISPATCH = {"ZeroLinearOperator.__add__", "ConstantDiagLinearOperator.__add__", "DiagLinearOperator.__add__",
+                     "DenseLinearOperator.__add__", "ZeroLinearOperator.mul"}
+
+
+def pair_row_wanted(r, quick):
+    """which operator (+) operator records go into the Coq shards (ALL of them are judged by the direct predicate).
+    thorough: every record with a query.  quick: the records the model of Check.v says something about —
+    the transcribed overrides (by dispatch target), every ZeroLinearOperator operand (pinned fast paths), and, for the
+    base-class guards of `*` and `@`, the refused operands of the unbatched direct left operands."""
+    if not quick:
+        return True
+    o = r["case"]["op"]
+    if (r.get("impl_of") or [""])[0] in MODELLED_DISPATCH or r.get("rhs_cls") == "ZeroLinearOperator":
+        return True
+    return (r["torch"][0] == "raise" and o in ("mul_op", "matmul_op") and r.get("left") == "direct" and len(r["shape"]) == 2)
+
+
 def query_lit(case, sh, rec=None):
     o, arg = case["op"], case["arg"]
     if o in PAIR_QUERY:
@@ -403,12 +420,22 @@ def query_lit(case, sh, rec=None):
 
 
 def shard_src(rows):
-    body = ";\n ".join('C "%s"%%string %s %s %s %s' % r for r in rows)
+    """class-name strings are bound once per shard (type-checking a long string literal per case dominates otherwise)"""
+    import re
+    names = {}
+
+    def sym(m):
+        return names.setdefault(m.group(1), "s%d" % len(names))
+    lines = []
+    for r in rows:
+        q = re.sub(r'"([A-Za-z_]+)"%string', sym, r[2])
+        lines.append('C %s %s %s %s %s' % (names.setdefault(r[0], "s%d" % len(names)), r[1], q, r[3], r[4]))
+    defs = "".join('Definition %s := "%s"%%string.\n' % (v, k) for k, v in names.items())
     return ("From Coq Require Import String.\nFrom Coq Require Import List ZArith Bool.\nImport ListNotations.\n"
-            "Require Import C19.Model C19.gen.Guards C19.Check.\nOpen Scope nat_scope.\n"
+            "Require Import C19.Model C19.gen.Guards C19.Check.\nOpen Scope nat_scope.\n" + defs +
             "Definition cases : list case := [\n %s].\n"
             "Eval vm_compute in (bad_cases cases 0).\n"
-            "Eval vm_compute in (count_modelled cases).\n" % body)
+            "Eval vm_compute in (count_modelled cases).\n" % ";\n ".join(lines))
 
 
 # ----------------------------------------------------------------------------------------------- run
@@ -689,6 +716,8 @@ def run(ctx):
     rows, back = [], []
     seen = set()
     for i, r in enumerate(recs):
+        if r["case"]["op"] in PAIR_QUERY and not pair_row_wanted(r, ctx.quick):
+            continue
         q = query_lit(r["case"], r["shape"], r)
         if q is None:
             continue
@@ -698,7 +727,7 @@ def run(ctx):
         seen.add(row)
         rows.append(row)
         back.append(i)
-    SH = 400
+    SH = 1000
     shards = [("c19_s%d_p%d_%d" % (ctx.seed, os.getpid(), k // SH), shard_src(rows[k:k + SH]))
               for k in range(0, len(rows), SH)]
     mism, n_modelled, mism_samples = [], 0, []
